@@ -253,11 +253,18 @@ def _ancestors_closure(edges, subset):
 
 def c15_case(case):
     from funtracks.import_export import export_to_csv, export_to_geff
-    kind, wname, seed_j, subset, fmt = case
+    kind, wname, seed_j, subset, fmt = case[:5]
     w = worlds.world(wname)
     seed = worlds.seed_from_json(seed_j)
+    if len(case) > 5 and case[5] == "desc":
+        # ids decreasing with time: a set of small ints iterates descendants before ancestors
+        n = len(seed["nodes"])
+        m = {k: n + 1 - k for k in seed["nodes"]}
+        seed = {"nodes": {m[k]: v for k, v in seed["nodes"].items()}, "edges": [(m[u], m[v]) for u, v in seed["edges"]]}
+        subset = [m[k] for k in subset]
     tracks = explore.rebuild(w, seed, [])
     subset = set(subset)
+    seg0 = None if tracks.segmentation is None else tracks.segmentation.copy()
     edges = [(int(u), int(v)) for u, v in tracks.graph.edges]
     exp_nodes = _ancestors_closure(edges, subset)
     exp_edges = {(u, v) for u, v in edges if u in exp_nodes and v in exp_nodes}
@@ -284,9 +291,9 @@ def c15_case(case):
             if w["seg"] and not out:
                 import tifffile
                 arr = tifffile.imread(d / "s.tif")
-                exp = np.zeros_like(tracks.segmentation)
+                exp = np.zeros_like(seg0)
                 for n in exp_nodes:
-                    exp[tracks.segmentation == n] = tracks.get_track_id(n)
+                    exp[seg0 == n] = tracks.get_track_id(n)
                 if arr.shape != exp.shape or not np.array_equal(arr.astype(np.int64), exp.astype(np.int64)):
                     out.append(vio("C15", "segmentation", f"csv tif: masks differ from the masks of {sorted(exp_nodes)} labelled by track", case, "subset-export", "csv"))
         else:
@@ -307,9 +314,18 @@ def c15_case(case):
                 out.append(vio("C15", "edges", f"geff: wrote edges {sorted(got_edges)}, expected {sorted(exp_edges)}", case, "subset-export", "geff"))
             if w["seg"]:
                 arr = np.asarray(zarr.open(str(d / "g" / "segmentation"), mode="r")[:])
-                exp = np.where(np.isin(tracks.segmentation, sorted(exp_nodes)), tracks.segmentation, 0)
+                exp = np.where(np.isin(seg0, sorted(exp_nodes)), seg0, 0)
                 if arr.shape != exp.shape or not np.array_equal(arr, exp):
                     out.append(vio("C15", "segmentation", f"geff: array differs from the source masked to {sorted(exp_nodes)}", case, "subset-export", "geff"))
+                elif subset:
+                    # a second selection exported from the same tracks object (all nodes) must
+                    # still contain every mask
+                    allnodes = set(int(n) for n in tracks.graph.nodes)
+                    export_to_geff(tracks, d / "g2", node_ids=allnodes)
+                    arr2 = np.asarray(zarr.open(str(d / "g2" / "segmentation"), mode="r")[:])
+                    exp2 = np.where(np.isin(seg0, sorted(allnodes)), seg0, 0)
+                    if not np.array_equal(arr2, exp2):
+                        out.append(vio("C15", "segmentation-second-export", f"geff: after exporting {sorted(subset)}, an export of all nodes misses masks", case, "subset-export", "geff"))
     finally:
         shutil.rmtree(d, ignore_errors=True)
     return out
@@ -327,18 +343,22 @@ def c15_cases(tier):
             for r in range(0, len(ids) + 1):
                 for sub in itertools.combinations(ids, r):
                     yield ("subset", wname, sj, sub, "csv")
+                    if r >= 2:
+                        yield ("subset", wname, sj, sub, "csv", "desc")
                     # GEFF export costs ~0.2 s: quick tier enumerates it for all forests <= 3 nodes
                     # (all subsets) and for 4-node forests with segmentation-free tracks for
                     # selections of one node; thorough for everything
                     if q and len(ids) == 4 and not (wname == "noseg-2d-given" and r == 1):
                         continue
                     yield ("subset", wname, sj, sub, "geff")
+                    if r == 2 and wname == "noseg-2d-given":
+                        yield ("subset", wname, sj, sub, "geff", "desc")
 
 
 # ===========================================================================
 # C12 import
 
-ID_SCHEMES = ("seq", "gaps", "zero", "desc", "str", "float")
+ID_SCHEMES = ("seq", "gaps", "zero", "desc", "str", "strdesc", "float")
 
 
 def _ids(scheme, n):
@@ -352,6 +372,9 @@ def _ids(scheme, n):
         return list(range(n + 3, 3, -1))
     if scheme == "str":
         return [f"c{i}" for i in range(n)]
+    if scheme == "strdesc":
+        # rows are not in the sorted order of their (string) ids
+        return [f"c{n - 1 - i}" for i in range(n)]
     if scheme == "float":
         return [float(i + 1) + 0.5 for i in range(n)]
     raise ValueError(scheme)
@@ -399,7 +422,7 @@ def c12_table(seed, scheme, parent_enc, ndim, naming, extras, pos_order, malform
         df.loc[row, R("id")] = df.loc[(row + 1) % len(nodes), R("id")]
     elif malformed == "unknown-parent":
         df[R("parent_id")] = df[R("parent_id")].astype(object)
-        df.loc[row, R("parent_id")] = "zz" if scheme == "str" else (777.5 if scheme == "float" else 777)
+        df.loc[row, R("parent_id")] = "zz" if scheme in ("str", "strdesc") else (777.5 if scheme == "float" else 777)
     elif malformed == "self-link":
         df[R("parent_id")] = df[R("parent_id")].astype(object)
         df.loc[row, R("parent_id")] = df.loc[row, R("id")]
